@@ -44,6 +44,8 @@ func main() {
 		runStress()
 	case "child":
 		runChild()
+	case "script":
+		runScript()
 	default:
 		fmt.Fprintln(os.Stderr, "unknown mode", os.Args[1])
 		os.Exit(2)
